@@ -140,6 +140,11 @@ func verify(argv []string) int {
 					has = true
 				}
 			}
+			for _, at := range fc.Ats {
+				if at.C.Prop == *prop {
+					has = true
+				}
+			}
 		}
 		if !has {
 			continue
